@@ -617,10 +617,28 @@ func checkC18Plugin(c C18Case) iso.Result {
 	defer os.Setenv("PATH", oldPath)
 
 	var b strings.Builder
+	nested := 0
 	b.WriteString("backend b { .host = \"127.0.0.1\"; .port = \"1\"; }\nsub vcl_recv {\n#FASTLY recv\n  set req.backend = b;\n")
 	for s := 0; s < c.Stmts; s++ {
 		b.WriteString(strings.Join(annotations, "\n") + "\n")
-		fmt.Fprintf(&b, "  set req.http.X-S%d = \"1\";\n", s)
+		switch (s + len(c.Plugins)) % 3 {
+		case 0:
+			fmt.Fprintf(&b, "  set req.http.X-S%d = \"1\";\n", s)
+		case 1:
+			// the built-in rules report on the annotated statement as well, while the plugins run
+			fmt.Fprintf(&b, "  set req.http.X-S%d = some.undefined.variable std.nope(1) std.strlen();\n", s)
+		default:
+			// an annotated statement nested in an annotated statement
+			fmt.Fprintf(&b, "  if (req.http.X-S%d == some.undefined.cond) {\n%s\n    set req.http.X-N%d = some.other.undefined;\n  }\n", s, strings.Join(annotations, "\n"), s)
+			for _, p := range c.Plugins {
+				if p.Mode == "ok" {
+					for _, m := range p.Msgs {
+						want[m]++
+					}
+				}
+			}
+			nested++
+		}
 	}
 	b.WriteString("}\n")
 	src := b.String()
@@ -649,7 +667,7 @@ func checkC18Plugin(c C18Case) iso.Result {
 	wantOthers := 0
 	for _, p := range c.Plugins {
 		if p.Mode != "ok" {
-			wantOthers += c.Stmts
+			wantOthers += c.Stmts + nested
 		}
 	}
 	var diffs []string
